@@ -82,7 +82,7 @@ class _FakeFile:
 def run_all(text):
     """the four entry points on `text` (supplied through the recorder as file in.i); returns per-entry outcome"""
     outcomes = {}
-    for entry in ("pybind_api", "matlab_api", "pybind_script", "matlab_script"):
+    for entry in ("pybind_api", "pybind_submodule_api", "matlab_api", "pybind_script", "pybind_submodule_script", "matlab_script"):
         with patched_io() as rec:
             real = rec.open
 
@@ -96,6 +96,10 @@ def run_all(text):
             try:
                 if entry == "pybind_api":
                     PybindWrapper(module_name="m", top_module_namespaces=[''], ignore_classes=[''], module_template=tpl()).wrap(["in.i"], "out.cpp")
+                elif entry == "pybind_submodule_api":
+                    PybindWrapper(module_name="m", top_module_namespaces=[''], ignore_classes=[''], module_template=tpl()).wrap_submodule("in.i")
+                elif entry == "pybind_submodule_script":
+                    run_script("pybind_wrap.py", ["--src", "in.i", "--module_name", "m", "--out", "out.cpp", "--template", os.path.join(DATA, "module.tpl"), "--is_submodule"])
                 elif entry == "matlab_api":
                     MatlabWrapper(module_name="m", top_module_namespace=[''], ignore_classes=['']).wrap(["in.i"], "outdir")
                 elif entry == "pybind_script":
@@ -130,12 +134,15 @@ def judge(text, must_fail, label):
 def c07_corruption(kind: int, k: int, s: int) -> bool:
     """
     Every single-token corruption (deletion, duplication, swap, truncation at any point, stray token) of a
-    60-token interface file: if what remains is not a complete sequence of declarations, all four entry points
+    60-token interface file: if what remains is not a complete sequence of declarations, all six entry points (pybind wrap / wrap_submodule / MATLAB wrap through the API and through the scripts)
     fail; a failing run creates no file and no directory.
     pre: 0 <= kind < 5 and 0 <= k < NB and 0 <= s < NS
     post: _
     """
     kind, k = pick(kind, 0, 5), pick(k, 0, NB)
+    if not THOROUGH and (k + kind) % 3 != 0:
+        reached()
+        return True                     # quick tier: every third position per corruption kind (offset by kind)
     s = pick(s, 0, NS) if (kind == 4 and THOROUGH) else (k % NS)
     with concrete():
         toks = corrupt(KINDS[kind], k, s)
@@ -165,6 +172,6 @@ def conds(tier):
     M = "harness.c07_io"
     return [
         xh.Cond(M, "c07_corruption", t(420, 2400), kind="shape-bounded", path_timeout=60, examples=["kind=3, k=17, s=0", "kind=0, k=5, s=0", "kind=4, k=30, s=2"],
-                bounds="5 corruption kinds x %d token positions%s, 4 entry points each" % (NB, " x %d stray tokens" % NS if not q else " (stray token derived)")),
-        xh.Cond(M, "c07_validation", t(120, 300), kind="shape-bounded", examples=["i=0", "i=4"], bounds="%d rule violations x 4 entry points" % NI),
+                bounds="5 corruption kinds x %s token positions%s, 6 entry points each" % (("all %d" % NB) if not q else ("every third of %d" % NB), " x %d stray tokens" % NS if not q else " (stray token derived)")),
+        xh.Cond(M, "c07_validation", t(120, 300), kind="shape-bounded", examples=["i=0", "i=4"], bounds="%d rule violations x 6 entry points" % NI),
     ]
